@@ -2,6 +2,7 @@
 reference semantics (C01, C02, C03) and the shared clauses used by C04, C06,
 C07, C15, C19."""
 import copy
+import sys
 
 from ..spec import sem, trees, gen
 
@@ -14,11 +15,24 @@ def lang(name):
     return {'CTL': CTL, 'LTL': LTL, 'CTLS': CTLS, 'PL': PL}[name]
 
 
+class _Null(object):
+    def write(self, *_):
+        pass
+
+    def flush(self):
+        pass
+
+
 def call(fn, *a, **kw):
+    # CTLS.modelcheck prints the exception it translates; keep stdout clean
+    old = sys.stdout
+    sys.stdout = _Null()
     try:
         return ('ok', fn(*a, **kw))
     except Exception as e:
         return ('raise', type(e).__name__, str(e)[:200])
+    finally:
+        sys.stdout = old
 
 
 def deep_snapshot(K):
